@@ -35,12 +35,22 @@ class NoiseSeam:
         self.B = B
         self.perturb = perturb
         self.labels = {}
+        self.meters = None
         self.log = []  # (size, seed)
 
     def __call__(self, size, dtype, device, seed):
         size = tuple(size)
         seed = int(seed)
         self.log.append((size, seed))
+        if self.meters is not None:
+            # value computation is trampolined in the library; the frame depth at a noise draw shows whether it still is
+            f = sys._getframe(1)
+            d = 1
+            while f is not None:
+                d += 1
+                f = f.f_back
+            if d - self.meters.base_depth > self.meters.max_depth:
+                self.meters.max_depth = d - self.meters.base_depth
         if self.mode == 'labelled':
             # sample shape (K,) or (B, K): batch row b of the draw with seed s is the unit vector e_{idx(s) * B + b}, so
             # rows of one draw are independent labels; a draw requested at a smaller (broadcast) shape shares labels
